@@ -19,18 +19,25 @@ Ftp::ParseIpPort(const char *buf, const char *forceIp, Ip::Address &addr)
 {
     int h1, h2, h3, h4;
     int p1, p2;
-    const int n = sscanf(buf, "%d,%d,%d,%d,%d,%d",
+    // at most three digits per component: longer numbers cannot be valid and
+    // must not get a chance to wrap around inside sscanf()
+    const int n = sscanf(buf, "%3d,%3d,%3d,%3d,%3d,%3d",
                          &h1, &h2, &h3, &h4, &p1, &p2);
 
     if (n != 6 || p1 < 0 || p2 < 0 || p1 > 255 || p2 > 255)
         return false;
 
+    if (h1 < 0 || h2 < 0 || h3 < 0 || h4 < 0 ||
+            h1 > 255 || h2 > 255 || h3 > 255 || h4 > 255)
+        return false;
+
     if (forceIp) {
-        addr = forceIp; // but the above code still validates the IP we got
+        addr = forceIp; // the above code still validates the IP we got
     } else {
         static char ipBuf[1024];
         snprintf(ipBuf, sizeof(ipBuf), "%d.%d.%d.%d", h1, h2, h3, h4);
-        addr = ipBuf;
+        if (!(addr = ipBuf))
+            return false; // and do not keep whatever addr held before
 
         if (addr.isAnyAddr())
             return false;
